@@ -182,13 +182,14 @@ func runCheck(id, tier, repo, dump, only string, list bool) int {
 		}
 		for _, r := range rs {
 			if kre != nil {
-				var keep []*Obligation
+				// the claim consists of the obligations of these kinds; the others stay in the run because
+				// each obligation is proved under the earlier ones as hypotheses: a failing one would make
+				// the claimed ones vacuous, so it is reported too (marked as a hypothesis)
 				for _, o := range r.Obls {
-					if kre.MatchString(o.Kind) {
-						keep = append(keep, o)
+					if !kre.MatchString(o.Kind) {
+						o.Hyp = true
 					}
 				}
-				r.Obls = keep
 			}
 			all = append(all, r.Obls...)
 		}
